@@ -259,7 +259,126 @@ def rule_scalar_siblings(ck):
                 ck.ob("table.scalar_siblings", f"try_as_number/{vn}", some and arm[vn] != t["otherwise"], "integer variant not converted", f.loc(arm[vn]))
 
 
+def _root(f, op, depth=10):
+    """root local (following single-definition copies / casts / `.0` of checked arithmetic) or ('const', v)"""
+    if isinstance(op, dict):
+        v = op_const(op)
+        if v is not None:
+            return ("const", v)
+        pl = op_place(op)
+        if pl is None:
+            return None
+        l = pl[0]
+        if len(pl) > 1 and pl[1:] != [".0"]:
+            return ("place", tuple(pl))
+    else:
+        l = op
+    for _ in range(depth):
+        ds = defs_of(f, l)
+        if len(ds) != 1 or ds[0][0] != "assign":
+            return l
+        rv = ds[0][2]
+        if rv["r"] in ("use", "cast"):
+            v = op_const(rv["op"])
+            if v is not None:
+                return ("const", v)
+            pl = op_place(rv["op"])
+            if pl is None:
+                return l
+            if len(pl) == 1 or pl[1:] == [".0"]:
+                l = pl[0]
+                continue
+            return l
+        return l
+    return l
+
+
+def _bin_def(f, l):
+    """(op, root_a, root_b) if local l is defined by one binary operation"""
+    l = _root(f, l)
+    if not isinstance(l, int):
+        return None
+    ds = defs_of(f, l)
+    if len(ds) == 1 and ds[0][0] == "assign" and ds[0][2]["r"] == "bin":
+        rv = ds[0][2]
+        return (rv["op"].replace("WithOverflow", ""), _root(f, rv["a"]), _root(f, rv["b"]))
+    return None
+
+
+def rule_vecdeque(ck):
+    prog = ck.prog
+    ck.rule("table.vecdeque_ring", "VecDeque ring split: with S = head % cap (0 when cap is 0), H = cap - S, L = len: if H >= L the elements are S..S+L (and nothing wraps), otherwise S..cap followed by 0..L-H; the element index range is applied to the fetched ring buffer in that order")
+    fs = [x for p, x in prog.fns.items() if p.endswith("::parse_vec_dequeue_inner")]
+    if not ck.ob("table.vecdeque_ring", "parse_vec_dequeue_inner/exists", len(fs) == 1, "", ""):
+        return
+    f = fs[0]
+    ck.saw(f)
+    tuples = []
+    for i, j, pl, rv, sp in f.assigns():
+        if rv["r"] == "agg" and rv["kind"] == "tuple" and len(rv["ops"]) == 2:
+            parts = []
+            for o in rv["ops"]:
+                l = _root(f, o)
+                ds = defs_of(f, l) if isinstance(l, int) else []
+                if len(ds) == 1 and ds[0][0] == "assign" and ds[0][2]["r"] == "agg" and ds[0][2]["name"].endswith("ops::Range"):
+                    parts.append(ds[0][2]["ops"])
+            if len(parts) == 2:
+                tuples.append((i, parts))
+    if not ck.ob("table.vecdeque_ring", "two-range-pairs", len(tuples) == 2, f"{len(tuples)} (range, range) tuples", f.loc()):
+        return
+    # classify: the contiguous case has an empty second range 0..0
+    def is00(r):
+        return _root(f, r[0]) == ("const", 0) and _root(f, r[1]) == ("const", 0)
+    contig = [t for t in tuples if is00(t[1][1])]
+    wrap = [t for t in tuples if not is00(t[1][1])]
+    if not ck.ob("table.vecdeque_ring", "one-contiguous-one-wrapped", len(contig) == 1 and len(wrap) == 1, "", f.loc()):
+        return
+    (cb, (c1, c2)), (wb, (w1, w2)) = contig[0], wrap[0]
+    S = _root(f, c1[0])
+    e1 = _bin_def(f, c1[1])
+    ok = e1 is not None and e1[0] == "Add" and e1[1] == S
+    L = e1[2] if ok else None
+    ck.ob("table.vecdeque_ring", "contiguous=S..S+L", ok, f"second bound = {e1}", f.loc(cb), what="VecDeque contiguous range is not S..S+len")
+    ok = _root(f, w1[0]) == S
+    C = _root(f, w1[1])
+    ck.ob("table.vecdeque_ring", "wrapped-first=S..cap", ok and isinstance(C, int), "", f.loc(wb))
+    t2 = _bin_def(f, w2[1])
+    ok = _root(f, w2[0]) == ("const", 0) and t2 is not None and t2[0] == "Sub" and t2[1] == L
+    H = t2[2] if ok else None
+    hd = _bin_def(f, H) if isinstance(H, int) else None
+    ok = ok and hd is not None and hd[0] == "Sub" and hd[1] == C and hd[2] == S
+    ck.ob("table.vecdeque_ring", "wrapped-second=0..L-(cap-S)", ok, f"second range end = {t2}, H = {hd}", f.loc(wb), what="VecDeque wrapped tail is not 0..len-(cap-start)")
+    # the selecting test: H >= L  chooses the contiguous pair
+    sel = None
+    for b, blk in enumerate(f.blocks):
+        t = blk["term"]
+        if t["t"] == "switch":
+            l = op_local(t["discr"])
+            bd = _bin_def(f, l) if l is not None else None
+            if bd and bd[0] in ("Ge", "Gt", "Le", "Lt") and {bd[1], bd[2]} == {H, L}:
+                sel = (b, t, bd)
+    ok = False
+    if sel:
+        b, t, bd = sel
+        true_tgt = t["otherwise"] if all(int(v) == 0 for v, _ in t["arms"]) else [x for v, x in t["arms"] if int(v) == 1][0]
+        reach_true = f.reach_from([true_tgt], avoid={f.ipdom(b)})
+        h_ge_l = (bd[0] == "Ge" and bd[1] == H) or (bd[0] == "Le" and bd[1] == L)
+        ok = h_ge_l and (cb in reach_true or cb == true_tgt) and wb not in reach_true
+    ck.ob("table.vecdeque_ring", "contiguous-iff-H>=L", ok, f"selector = {sel[2] if sel else None}", f.loc(sel[0]) if sel else f.loc(), what="VecDeque ring split chooses the wrong case at the boundary")
+    # S = head % cap guarded against cap == 0
+    sd = defs_of(f, S) if isinstance(S, int) else []
+    rems = [d for d in sd if d[0] == "assign" and d[2]["r"] == "bin" and d[2]["op"].startswith("Rem")]
+    zeros = [d for d in sd if d[0] == "assign" and d[2]["r"] == "use" and op_const(d[2]["op"]) == 0]
+    ok = len(rems) == 1 and len(zeros) == 1 and _root(f, rems[0][2]["b"]) == C
+    ck.ob("table.vecdeque_ring", "S=head%cap-or-0", ok, f"{len(rems)} remainder defs, {len(zeros)} zero defs", f.loc())
+    # len <= cap (a ring buffer cannot hold more than its capacity)
+    ld = defs_of(f, L) if isinstance(L, int) else []
+    okl = any(d[0] == "call" and re.search(r"(::min|>::min)$", d[2].name) and C in {_root(f, a) for a in d[2].args} for d in ld)
+    ck.ob("table.vecdeque_ring", "len-clamped-to-cap", okl, "", f.loc(), what="VecDeque length from memory is not bounded by the capacity")
+
+
 def run(ck):
+    rule_vecdeque(ck)
     rule_scalar_table(ck)
     rule_version_tables(ck)
     rule_scalar_siblings(ck)
